@@ -24,6 +24,7 @@ static J gen_threads(Chooser &ch)
   g::Opt o;
   o.min_features = 1; o.max_features = 4;
   o.operations = true; o.model_ranges = true; o.water = true; o.cross_section = 1; o.global_constants = ch.chance(30);
+  o.depth_surfaces = true; o.depth_surface_interior = 8; // triangulated depth surfaces: objects shared by all threads that are searched per query
   g::GW w = g::gen_world(ch, o);
   J c = J::obj();
   c["world"] = w.root.dump();
@@ -96,7 +97,7 @@ static J gen_grid(Chooser &ch)
   g::Opt o;
   o.min_features = 1; o.max_features = 4;
   o.allow_spherical = false; // the grid below is cartesian; chunk/sphere grids are exercised in C18
-  o.cross_section = 2; o.operations = true;
+  o.cross_section = 2; o.operations = true; o.depth_surfaces = true;
   g::GW w = g::gen_world(ch, o);
   J c = J::obj();
   c["world"] = w.root.dump();
